@@ -89,7 +89,7 @@ pub fn perturb_once(mods: &mut Mods, rng: &mut Rng) -> Option<&'static str> {
         },
         ItemDefinitionInner::Type(td) => {
             let nstmt = td.statements.len();
-            match rng.below(16) {
+            match rng.below(17) {
                 0 => {
                     let cur = attr_int(&td.attributes, "size").map(|v| v as usize);
                     let new = match cur {
@@ -109,6 +109,13 @@ pub fn perturb_once(mods: &mut Mods, rng: &mut Rng) -> Option<&'static str> {
                     };
                     set_int_attr(&mut td.attributes, "align", new);
                     Some("type-align-changed")
+                }
+                15 => {
+                    if attr_int(&td.attributes, "align").is_none() {
+                        return None;
+                    }
+                    set_int_attr(&mut td.attributes, "align", None);
+                    Some("type-align-removed")
                 }
                 2 => {
                     toggle_flag(&mut td.attributes, "packed");
